@@ -562,3 +562,47 @@ Proof.
   destruct (sq_loop (S (length line)) dlm true (ext_of dlm) line) as [t w] eqn:L. cbn [fst].
   apply (sq_loop_rejoin dlm (ext_of dlm) Hd _ _ _ _ (Nat.lt_succ_diag_r _) L).
 Qed.
+
+(* ================================================================ (d) the two ports quote identically (for C18) *)
+
+Lemma quote_field_agree dlm f : quote_field_py dlm f = quote_field_js dlm f.
+Proof.
+  unfold quote_field_py, quote_field_js. destruct (has QT f) eqn:Hq; [rewrite orb_true_r; reflexivity|].
+  rewrite orb_false_r. destruct (contains dlm f); [rewrite (double_noquote f Hq)|]; reflexivity.
+Qed.
+
+Lemma rfc_quote_field_agree dlm f : rfc_quote_field_py dlm f = rfc_quote_field_js dlm f.
+Proof.
+  unfold rfc_quote_field_py, rfc_quote_field_js. destruct (has QT f) eqn:Hq.
+  - rewrite orb_true_r. reflexivity.
+  - rewrite orb_false_r. destruct (contains dlm f || has LF f || has CR f); [rewrite (double_noquote f Hq)|]; reflexivity.
+Qed.
+
+
+(* ================================================================ the fuel passed by split_quoted_str suffices *)
+
+Lemma extract_progress dlm pr ext s x w r : dlm <> [] ->
+  extract_next_field dlm pr ext s = (x, w, Some r) -> (length r < length s)%nat.
+Proof.
+  intros Hd. pose proof (dlm_len_pos dlm Hd) as Hdl. unfold extract_next_field. cbv zeta.
+  assert (forall w0, match find dlm s with
+                     | None => ((false, s), w0 || has QT s, None)
+                     | Some i => ((false, firstn i s), w0 || has QT (firstn i s), Some (skipn (i + length dlm) s))
+                     end = (x, w, Some r) -> (length r < length s)%nat) as Hf.
+  { intros w0 H. destruct (find dlm s) as [i|] eqn:F; [|discriminate]. injection H as _ _ <-.
+    pose proof (find_some_len _ _ _ F). rewrite skipn_length. lia. }
+  destruct (qmatch ext s) as [[[g0 raw] r0]|] eqn:M; [|apply Hf].
+  destruct (qmatch_sound _ _ _ _ _ M) as [Es _]. destruct r0 as [|c r1]; [discriminate|].
+  destruct (strip_prefix dlm (c :: r1)) as [r2|] eqn:P; [|apply Hf].
+  intros H. injection H as _ _ <-. apply strip_prefix_some in P. rewrite Es, P. rewrite !app_length. lia.
+Qed.
+
+Lemma sq_loop_fuel_enough dlm pr ext : dlm <> [] -> forall f1 f2 s, (length s < f1)%nat -> (length s < f2)%nat ->
+  sq_loop f1 dlm pr ext s = sq_loop f2 dlm pr ext s.
+Proof.
+  intros Hd. induction f1 as [|f1 IH]; intros f2 s H1 H2; [lia|]. destruct f2 as [|f2]; [lia|].
+  destruct s as [|c0 s0]; [reflexivity|]. remember (c0 :: s0) as s eqn:Es. assert (s <> []) as Hne by (subst s; discriminate).
+  rewrite !(sq_loop_S _ _ _ _ _ Hne).
+  destruct (extract_next_field dlm pr ext s) as [[x w] [r|]] eqn:E; [|reflexivity].
+  pose proof (extract_progress _ _ _ _ _ _ _ Hd E) as Hp. rewrite (IH f2 r) by lia. reflexivity.
+Qed.
